@@ -29,6 +29,9 @@ pub enum HOp {
     /// move by n representable values
     Nudge(Vec<(usize, i64)>),
     Swap(usize, usize),
+    /// the same as Set, but the handles are written on another thread (handles are Send, the
+    /// values they point at are shared): the state is then judged on this thread again
+    SetOnOtherThread(Vec<(usize, f64)>),
     /// undo the previous parameter edit through the handles' own reset_value()
     Reset,
     Shape(usize),
@@ -209,6 +212,19 @@ pub fn drive<T: Editable, J: FnMut(&T, usize, usize, &Params, &mut Stats)>(h: &H
                             touched.push(ib);
                         }
                     }
+                    HOp::SetOnOtherThread(v) => {
+                        touched.clear();
+                        let targets: Vec<(usize, f64)> = v.iter().filter_map(|(k, x)| hd(*k).map(|b| (b, *x))).collect();
+                        let bref = &mut basis;
+                        std::thread::scope(|sc| {
+                            sc.spawn(move || {
+                                for (b, x) in targets.iter() {
+                                    bref[*b].set_value(*x);
+                                }
+                            });
+                        });
+                        st.count("edits_made_on_another_thread");
+                    }
                     HOp::Reset => {
                         for b in touched.drain(..).rev() {
                             basis[b].reset_value();
@@ -348,7 +364,13 @@ pub fn gen_history<R: Rng>(rng: &mut R, group: &str, shapes: Vec<ShapeSpec>, lj:
                 let (a, b) = pairs[rng.gen_range(0, 4)];
                 HOp::Swap(a, b)
             }
-            11 => HOp::Reset,
+            11 => {
+                if rng.gen_bool(0.5) {
+                    HOp::Reset
+                } else {
+                    HOp::SetOnOtherThread(some_indices(rng, &all).into_iter().map(|k| (k, rand_value(rng, k, len_scale))).collect())
+                }
+            }
             12 => HOp::Shape(rng.gen_range(0, shapes.len())),
             13 => {
                 if rng.gen_bool(0.5) {
